@@ -3,6 +3,7 @@
 package harness
 
 import (
+	"codeberg.org/TauCeti/mangle-go/engine"
 	"fmt"
 	"strings"
 
@@ -10,7 +11,24 @@ import (
 )
 
 func init() {
-	Register(&Prop{ID: "C04", Run: runC04, StepCap: 40_000_000})
+	Register(&Prop{ID: "C04", Run: runC04, StepCap: 40_000_000, Probes: []Probe{{
+		Key:  "input-mode-binds-head-variable",
+		Desc: "Decl p(X) descr [mode(\"+\")]. p(X) :- q(Y). q(1). - the declared input mode makes the head variable count as bound although bottom-up evaluation never gives it a value: the clause is accepted and the non-ground fact p(X) is stored",
+		Run: func(r *simrt.Run) Outcome {
+			text := "q(1).\nDecl p(X) descr [mode(\"+\")].\np(X) :- q(Y).\n"
+			pi, err, _ := ParseAnalyze(text, nil)
+			if err != nil {
+				return Outcome{} // rejected: fine
+			}
+			store := NewStore(StoreSimple)
+			if err := engine.EvalProgram(pi, store); err != nil {
+				return Violation("C04/eval-error", "accepted program fails during evaluation: %v\n%s", err, text)
+			}
+			if _, err := DumpStore(store, nil); err != nil {
+				return Violation("C04/non-ground-fact", "a non-ground fact was stored: %v\n%s", err, text)
+			}
+			return Outcome{}
+		}}}})
 }
 
 // unsafeReason judges a clause by the statement's own definition: a head
@@ -90,7 +108,19 @@ func runC04(r *simrt.Run, tier Tier) Outcome {
 		ri := r.Choose(len(prog.Rules), "c04.rule")
 		rule := prog.Rules[ri]
 		body := append([]Lit{}, rule.Body...)
-		switch r.Choose(11, "c04.kind") {
+		switch r.Choose(12, "c04.kind") {
+		case 11: // a second let-statement that uses the variable of the first, written after or before it
+			if len(rule.Lets) == 1 && rule.Do == nil {
+				first := rule.Lets[0]
+				second := Let{Var: freshVar(), E: Fn("fn:plus", V(first.Var), C(IntV(1)))}
+				rule.Lets = []Let{first, second}
+				where := "after"
+				if r.Bool("c04.let.before") {
+					rule.Lets = []Let{second, first}
+					where = "before"
+				}
+				pertDesc = append(pertDesc, fmt.Sprintf("rule %d: let %s = fn:plus(%s, 1) written %s the statement that defines %s", ri, second.Var, first.Var, where, first.Var))
+			}
 		case 10: // a negated atom over a variable that gets its value through an equality with a variable bound further right
 			ls := lower(rule)
 			bound, _, _ := BindingClosure(body)
